@@ -1203,13 +1203,33 @@ func c16Compile(w *World, r *Report) {
 	r.floor("C16/compile-writes-only-in-writer", 60)
 	c16Writer(w, r, wctf)
 	// (d) the outputs map handed to Compile: key k <- the variable the flag for k is bound to; input <- the -f flag's variable
-	flagOf := map[string]string{} // global variable -> flag name
+	flagOf := map[string]string{}   // global variable -> flag name
+	stringFlag := map[string]bool{} // command variable|flag name: a string flag registered on that command's flag set
 	for _, fn := range w.srcFuncs {
 		if fn.Pkg != w.Cmd || !strings.HasPrefix(fn.Name(), "init") {
 			continue
 		}
 		forEachInstr(fn, func(b *ssa.BasicBlock, ins ssa.Instruction) {
 			c, ok := ins.(ssa.CallInstruction)
+			if ok {
+				// any string flag of a command, whichever registration form (constant name, or one per entry of a table of targets)
+				nameArg := -1
+				switch {
+				case calleeIs(c, "(*github.com/spf13/pflag.FlagSet).StringVarP"), calleeIs(c, "(*github.com/spf13/pflag.FlagSet).StringVar"):
+					nameArg = 2
+				case calleeIs(c, "(*github.com/spf13/pflag.FlagSet).StringP"), calleeIs(c, "(*github.com/spf13/pflag.FlagSet).String"):
+					nameArg = 1
+				}
+				if nameArg > 0 && len(c.Common().Args) > nameArg {
+					if fs := d.eval(c.Common().Args[0], &drvEnv{}, 0); fs.Kind == "flagset" {
+						for _, row := range d.evalOverTable([]ssa.Value{c.Common().Args[nameArg]}, &drvEnv{}) {
+							if len(row) == 1 && row[0].Kind == "str" {
+								stringFlag[fs.S+"|"+row[0].S] = true
+							}
+						}
+					}
+				}
+			}
 			if !ok || !(calleeIs(c, "(*github.com/spf13/pflag.FlagSet).StringVarP") || calleeIs(c, "(*github.com/spf13/pflag.FlagSet).StringVar")) {
 				return
 			}
@@ -1354,7 +1374,19 @@ func c16Compile(w *World, r *Report) {
 		for _, k := range sortedKeys(flagKeyNames) {
 			key := fmt.Sprintf("outputs[%q] is the value of --%s", k, flagKeyNames[k])
 			v, ok := outs.Map[k]
+			// without an outputs map: the directory of every write for k was read from the parsed flag set of this very command, under
+			// the name of k's flag, and that flag is registered on the command as a string flag
+			direct := outs.Kind != "maplit" && len(d.flagReads[k]) > 0
+			for _, fs := range d.flagReads[k] {
+				if fs.Kind != "flagset" || fs.S != owner || owner == "" {
+					direct = false
+				}
+			}
 			switch {
+			case direct && stringFlag[owner+"|"+flagKeyNames[k]]:
+				r.pass(rule, key, w.pos(runE.Pos()), "read from the command's parsed flag set")
+			case direct:
+				r.fail(rule, key, w.pos(runE.Pos()), fmt.Sprintf("the directory is read as flag --%s of %s, which is not registered there as a string flag: the lookup fails at run time", flagKeyNames[k], owner))
 			case outs.Kind != "maplit":
 				r.fail(rule, key, w.pos(runE.Pos()), "the outputs argument of Compile is "+outs.String()+", not a map built from the flag variables")
 			case !ok || v.Kind != "flagvar":
